@@ -4,7 +4,7 @@ import glob, os
 os.chdir(os.path.join(os.path.dirname(os.path.abspath(__file__)), 'coq'))
 files = ['theories/Lib/Alist.v', 'theories/Tree/C12Model.v', 'theories/Tree/C12Proofs.v',
          'theories/Props/C12.v']
-for fl in sorted(glob.glob('theories/*/FILES*')):
+for fl in [l.strip() for l in open('INTEGRATED') if l.strip()]:
     for ln in open(fl):
         ln = ln.strip()
         if ln and not ln.startswith('#') and ln not in files:
